@@ -137,7 +137,10 @@ def o_set_outputs(O):
 @obligation("C04/construction-answer", desc="try_new / new_with_outputs: the context starts from the construction call's "
             "answer (set_outputs on the fresh context)")
 def o_construction(O):
-    R = rep()
+    construction_answer(O, rep())
+
+
+def construction_answer(O, R):
     fn = O.find("::new_with_outputs")
     eng = O.engine()
     eng.keep_events(r"EvalContext::new$", r"set_outputs$")
